@@ -23,7 +23,7 @@ import textwrap
 from abc import ABC, abstractmethod
 from decimal import Decimal
 from types import CodeType
-from typing import Callable, Set, Optional, List, Union, Type
+from typing import Callable, Dict, Set, Optional, List, Union, Type
 from weakref import WeakKeyDictionary
 
 from twosigma.memento.reference import FunctionReference
@@ -276,7 +276,8 @@ def list_dotted_names(fn: Callable) -> Set[str]:
             # Nested scopes (inner functions, lambdas, comprehensions, classes) have locals of
             # their own, which the syntax tree does not tell apart from globals: keep only
             # what some code object of this function actually looks up as a global
-            global_names = set()  # type: Set[str]
+            # (the function's own free variables count: they are looked up in its closure)
+            global_names = set(code_obj.co_freevars)  # type: Set[str]
             code_objects = [code_obj]
             while code_objects:
                 nested_code = code_objects.pop()
@@ -323,6 +324,40 @@ def list_dotted_names(fn: Callable) -> Set[str]:
         log.debug("Skipping {} in code hash because {}".format(fn.__qualname__, e))
         _dotted_names_cache[fn] = set()
         return set()
+
+
+class _ScopeOfClosure:
+    """
+    The names a function with a closure sees besides its locals: its free variables, then the
+    global table of its module. Looks like the read-only part of a dict.
+
+    """
+
+    def __init__(self, cells: Dict[str, object], global_table: Dict[str, object]):
+        self._cells = cells
+        self._global_table = global_table
+
+    def __contains__(self, name) -> bool:
+        try:
+            self[name]
+        except KeyError:
+            return False
+        return True
+
+    def __getitem__(self, name):
+        if name in self._cells:
+            try:
+                return self._cells[name].cell_contents
+            except ValueError:
+                # An empty cell: the variable is not bound (yet)
+                raise KeyError(name)
+        return self._global_table[name]
+
+    def get(self, name, default=None):
+        try:
+            return self[name]
+        except KeyError:
+            return default
 
 
 class HashRule(ABC):
@@ -461,6 +496,14 @@ class HashRule(ABC):
         else:
             # Cannot visit this dependency if there is no global scope
             return
+        # A free variable of the function is found in its closure rather than in the global
+        # table: the function that a decorator's wrapper calls (which, without
+        # functools.wraps, nothing else leads to), the arguments of a factory function
+        closure = getattr(inner_fn, "__closure__", None)
+        if closure and hasattr(inner_fn, "__code__"):
+            global_table = _ScopeOfClosure(
+                dict(zip(inner_fn.__code__.co_freevars, closure)), global_table
+            )
 
         # If ":" is in the symbol name, this is a qualified name from memento.
         # Construct via a FunctionReference
